@@ -1,11 +1,262 @@
 import SageModel.Proto
+import SageModel.Model.C02
+import SageModel.Drv.C09
 
-/-! Driver ops for C02 (stub: no ops yet). -/
+/-! Driver ops for C02 (arithmetic at `Float32` / `Float`, same operations in the same order as the Rust code).
+
+```
+tol    := 0 u32(lo) u32(hi)  (ppm)  |  1 u32(lo) u32(hi)  (Da)
+pep    := h:seq [n u32 mod…] opt(u32 nterm) opt(u32 cterm) u32(monoisotopic) decoy(0/1)
+peak   := u32(mass) u32(intensity)
+
+search [k kind…] min_ion_index bucket [p pep…]  tol(fragment) tol(precursor) opt(max_fragment_charge)
+       min_isotope_err max_isotope_err min_precursor_charge max_precursor_charge override_precursor_charge
+       chimera wide_window report_psms min_matched_peaks
+       u32(precursor m/z) opt(precursor charge) opt(tol isolation window) [n peak…]
+   |  [f psm…] in reported order   |  panic
+psm    := pep_ix charge rank u32(isotope_error) matched_peaks scored_candidates u64(hyperscore)
+          u64(delta_next) u64(delta_best) label
+```
+
+The model side builds its OWN index (`C09.buildFragments` → `C03.buildIndex`, stable sorts) and runs `C02.search`
+(C03's `pageSearchC`, the dense preliminary vector, C10's swap-level heap, C04's `scoreCandidate`, the stable
+descending sort, the chimeric loop).
+
+`agree`: everything produced by `+ − × ÷`, casts, comparisons and the heap/sort (peptide, charge, rank,
+isotope_error, matched_peaks, scored_candidates, label, the ORDER) is compared exactly. `hyperscore` passes
+through libm's `ln` (Lean's toolchain ships its own libm): ≤ 4 ulp. `delta_next` / `delta_best` are differences of
+two hyperscores: absolute difference ≤ 1e-12·max(1, |hyperscore| + |delta|). When two hyperscores of the model's
+sorted score vector are within 8 ulp of each other without being bit-identical (a near-tie that the two libms
+may order differently; bit-identical scores are ordered by the stable sort on both sides) and the lists differ,
+the reply is compared through the spec instead: `agree := (spec = ok)`.
+
+`spec`: `C02.specClause` (brute force, see `Model/C02.lean`) on the IMPLEMENTATION's reply. `na` for requests
+outside the model's domain (`covered`).
+-/
 namespace Sage.C02
 open Sage.Proto
+open Sage.C09 (Kind RawPep pRaw f32OfBits constsF)
+open Sage.C03 (Tol Frag)
+open Sage.C04 (Env Peak)
+
+/-- `f32::ln_1p` then `as f64` (unused by C02: SageHyperScore only) -/
+def ln1p32 (x : Float32) : Float := (Float.log (1.0 + x.toFloat)).toFloat32.toFloat
+
+def E32 : Env Float32 Float :=
+  { add := (· + ·), sub := (· - ·), mul := (· * ·), div := (· / ·), abs := Float32.abs, neg := fun x => -x,
+    ofNat := Float32.ofNat,
+    proton := f32OfBits Sage.Gen.PROTON_bits, neutron := f32OfBits Sage.Gen.NEUTRON_bits,
+    cast := Float32.toFloat,
+    addD := (· + ·), subD := (· - ·), mulD := (· * ·), divD := (· / ·), negD := fun x => -x,
+    ofNatD := Float.ofNat, half := 0.5, pi := 3.14159265358979323846264338327950288, tiny := 0.0,
+    ln := Float.log, exp := Float.exp, log10 := Float.log10, ln1p := ln1p32,
+    isFinite := Float.isFinite, isInf := Float.isInf }
+
+/-- monotone integer key of `f64::total_cmp` -/
+def f64Key (x : Float) : Int :=
+  let n : Int := x.toBits.toNat
+  if n ≥ 2^63 then (2^63 : Int) - 1 - n else n
+
+/-- `x.total_cmp(y) != Greater` -/
+def tle64 (x y : Float) : Bool := decide (f64Key x ≤ f64Key y)
+
+def absF (x : Float) : Float := if x < 0.0 then -x else x
+
+def near4 (x y : Float) : Bool := x.toBits == y.toBits || (!x.isNaN && !y.isNaN && ulpDistF64 x y ≤ 4)
+
+/-- allowance for a difference of two hyperscores each known to 4 ulp: 1e-12·max(1, |scale| + |value|) -/
+def close64 (a b scale : Float) : Bool :=
+  a.toBits == b.toBits ||
+  (!a.isNaN && !b.isNaN && absF (a - b) ≤ 1.0e-12 * (let m := absF scale + absF a; if m < 1.0 then 1.0 else m))
+
+def cmp64 : Cmp Float :=
+  { le := fun x y => decide (x ≤ y), near := near4, zero := 0.0, sub := (· - ·),
+    eq := fun x y => x.toBits == y.toBits || x == y, close := close64 }
+
+/-! ### parsing -/
+
+def pTol : P (Tol Float32) := do
+  let k ← nat
+  let lo ← f32
+  let hi ← f32
+  match k with
+  | 0 => pure (.ppm lo hi)
+  | 1 => pure (.da lo hi)
+  | _ => failure
+
+def pPeak : P (Peak Float32) := do
+  let m ← f32
+  let i ← f32
+  pure { mass := m, intensity := i }
+
+def pPep : P (RawPep × Bool) := do
+  let r ← pRaw
+  let d ← bool
+  pure (r, d)
+
+structure Req where
+  kinds : List Kind
+  minIdx : Nat
+  bucket : Nat
+  raws : List (RawPep × Bool)
+  cfg : Cfg Float32
+  prec : Precursor Float32
+  peaks : List (Peak Float32)
+
+def allSomeK : List (Option Kind) → Option (List Kind)
+  | [] => some []
+  | none :: _ => none
+  | some k :: ks => (allSomeK ks).map (k :: ·)
+
+def pReq : P Req := do
+  let kindNs ← list nat
+  let minIdx ← nat
+  let bucket ← nat
+  let raws ← list pPep
+  let ftol ← pTol
+  let ptol ← pTol
+  let mfc ← opt nat
+  let isoLo ← int
+  let isoHi ← int
+  let zLo ← nat
+  let zHi ← nat
+  let overrideCharge ← bool
+  let chimera ← bool
+  let wideWindow ← bool
+  let reportPsms ← nat
+  let minMatched ← nat
+  let mz ← f32
+  let charge ← opt nat
+  let isoWin ← opt pTol
+  let peaks ← list pPeak
+  match allSomeK (kindNs.map Kind.ofNat?) with
+  | none => failure
+  | some kinds =>
+    pure { kinds, minIdx, bucket, raws, peaks,
+           cfg := { ptol, ftol, minMatched, isoLo, isoHi, zLo, zHi, overrideCharge, mfc, chimera, reportPsms, wideWindow,
+                    defaultIsoWin := .da (-2.4 : Float32) (2.4 : Float32) },
+           prec := { mz, charge, isoWin } }
+
+/-- requests the model covers: well-formed peptides (C09 domain), ascending peptide masses, ascending NaN-free
+    peak masses, small charges / isotope errors (`u8` / `i8` never wrap), bucket ≥ 1 -/
+def Req.covered (r : Req) : Bool :=
+  r.bucket ≥ 1 &&
+  r.raws.all (fun p => p.1.seq.length ≥ 1 && p.1.mods.length ≥ p.1.seq.length) &&
+  (let ms := r.raws.map (fun p => f32OfBits p.1.mass)
+   ms.all (fun m => !m.isNaN) && (ms.zip (ms.drop 1)).all (fun ab => decide (ab.1 ≤ ab.2))) &&
+  (let ms := r.peaks.map (·.mass)
+   ms.all (fun m => !m.isNaN) && (ms.zip (ms.drop 1)).all (fun ab => decide (ab.1 ≤ ab.2))) &&
+  r.peaks.all (fun p => !p.intensity.isNaN) &&
+  r.cfg.zLo < 64 && r.cfg.zHi < 64 && (match r.prec.charge with | some c => c ≥ 1 && c < 64 | none => true) &&
+  (match r.cfg.mfc with | some c => c < 64 | none => true) &&
+  r.cfg.isoLo ≥ -8 && r.cfg.isoHi ≤ 8 && r.cfg.isoLo ≤ 8 && r.cfg.isoHi ≥ -8 && !r.prec.mz.isNaN
+
+/-! ### the model run -/
+
+structure World where
+  db : Db Float32
+  info : PepInfo Float32
+  sdb : SpecDb Float32
+
+def mkWorld (r : Req) : Option World := do
+  let peps := r.raws.map (fun p => p.1.toF)
+  let pepArr := peps.toArray
+  let ions : List (Frag Float32) :=
+    (Sage.C09.buildFragments constsF r.kinds r.minIdx peps).map fun f => { pep := f.1, mz := f.2 }
+  let (minv, frags) ← Sage.C03.buildIndex r.bucket ions
+  let info : PepInfo Float32 :=
+    { series := fun i => match pepArr[i]? with
+        | some p => r.kinds.map (fun k => (k, Sage.C09.ions constsF k p))
+        | none => [],
+      len := fun i => match pepArr[i]? with | some p => p.residues.length | none => 0 }
+  let idxFrags : Array (List Float32) :=
+    (peps.zipIdx.map fun pi => (Sage.C09.pepFragments constsF r.kinds r.minIdx pi.2 pi.1).map (·.2)).toArray
+  pure { db := { masses := (peps.map (·.mass)).toArray, minv := minv, frags := frags, B := r.bucket },
+         info := info,
+         sdb := { masses := peps.map (·.mass), decoy := r.raws.map (·.2),
+                  indexFrags := fun i => idxFrags.getD i [], info := info } }
+
+def canonF32 (x : Float32) : String := if x.isNaN then "2143289344" else outF32 x
+def canonF64 (x : Float) : String := if x.isNaN then "9221120237041090560" else outF64 x
+
+def isoErrF (e : Int) : Float32 := E32.mul (Sage.C04.ofInt E32 e) E32.neutron
+
+def psmToks (r : Req) (scored : Nat) (p : Psm Float) : List String :=
+  let label : Int := match (r.raws.map (·.2))[p.pep]? with | some true => -1 | _ => 1
+  [toString p.pep, toString p.charge, toString p.rank, canonF32 (isoErrF p.iso), toString p.matched,
+   toString scored, canonF64 p.hs, canonF64 p.dnext, canonF64 p.dbest, toString label]
+
+/-! ### the implementation's reply -/
+
+def pRep : P (Rep Float32 Float) := do
+  let pep ← nat
+  let charge ← nat
+  let rank ← nat
+  let isoErr ← f32
+  let matched ← nat
+  let scoredCandidates ← nat
+  let hs ← f64
+  let dnext ← f64
+  let dbest ← f64
+  let label ← int
+  pure { pep, charge, rank, isoErr, matched, scoredCandidates, hs, dnext, dbest, label }
+
+def deltaNear (a b hs : Float) : Bool :=
+  a.toBits == b.toBits ||
+  (!a.isNaN && !b.isNaN && absF (a - b) ≤ 1.0e-12 * (let m := absF hs + absF a; if m < 1.0 then 1.0 else m))
+
+/-- positional comparison of the model's PSMs with the implementation's -/
+def psmAgree (r : Req) (scored : Nat) (m : Psm Float) (i : Rep Float32 Float) : Bool :=
+  let label : Int := match (r.raws.map (·.2))[m.pep]? with | some true => -1 | _ => 1
+  m.pep == i.pep && m.charge == i.charge && m.rank == i.rank && (isoErrF m.iso).toBits == i.isoErr.toBits &&
+  m.matched == i.matched && scored == i.scoredCandidates && label == i.label &&
+  near4 m.hs i.hs && deltaNear m.dnext i.dnext m.hs && deltaNear m.dbest i.dbest m.hs
+
+def listAgree (r : Req) (scored : Nat) : List (Psm Float) → List (Rep Float32 Float) → Bool
+  | [], [] => true
+  | m :: ms, i :: is => psmAgree r scored m i && listAgree r scored ms is
+  | _, _ => false
+
+/-- two hyperscores within 8 ulp that are not bit-identical -/
+def nearTie (x y : Float) : Bool := x.toBits != y.toBits && !x.isNaN && !y.isNaN && ulpDistF64 x y ≤ 8
+
+def hasNearTie (l : List (Cand Float)) : Bool := (l.zip (l.drop 1)).any fun ab => nearTie ab.1.hs ab.2.hs
+
+/-- does the model's run pass through a near-tie that could change the outcome? -/
+def nearTieFlag (r : Req) (w : World) (psms : List (Psm Float)) : Bool :=
+  let hits := initialHits E32 w.db r.cfg r.peaks r.prec
+  let prelim := hits.prelim.toList
+  let vec (peaks : Array (Peak Float32)) : List (Cand Float) :=
+    scoreVector tle64 (scoreCand E32 r.cfg.ftol r.cfg.mfc w.info peaks) r.cfg.minMatched prelim
+  if r.cfg.chimera then
+    let rec go : List (Psm Float) → Array (Peak Float32) → Bool
+      | [], peaks => hasNearTie ((vec peaks).take 2)
+      | p :: ps, peaks =>
+        hasNearTie ((vec peaks).take 2) || go ps (removeMatched E32 r.cfg.ftol r.cfg.mfc w.info peaks p.pep p.charge)
+    go psms r.peaks.toArray
+  else hasNearTie ((vec r.peaks.toArray).take (r.cfg.reportPsms + 1))
 
 def handle (op : String) (args impl : List String) : Option Reply :=
   match op with
+  | "search" => do
+    let r ← run pReq args
+    if !r.covered then
+      pure { model := "uncovered", agree := false, spec := "na" }
+    else
+    match mkWorld r with
+    | none => pure { model := "uncovered", agree := false, spec := "na" }
+    | some w =>
+      let (scored, psms) := search E32 tle64 w.db r.cfg w.info r.peaks r.prec
+      let model := " ".intercalate (toString psms.length :: psms.flatMap (psmToks r scored))
+      match run (list pRep) impl with
+      | none =>
+        -- `panic` (or an unparsable reply): the model never panics on covered requests
+        pure { model := model, agree := false, spec := if impl == ["panic"] then "bad:panic" else "bad:shape" }
+      | some reps =>
+        let spec := specClause E32 cmp64 w.sdb r.cfg r.prec r.peaks reps
+        let exactAgree := listAgree r scored psms reps
+        let agree := exactAgree || (spec == "ok" && nearTieFlag r w psms)
+        pure { model := model, agree := agree, spec := spec }
   | _ => none
 
 end Sage.C02
